@@ -532,3 +532,75 @@ fn c03_incdec_on_variable() {
     kani::cover!(res.is_err(), "overflow reachable");
     kani::cover!(res.is_ok() && k >= 2, "postfix reachable");
 }
+
+// ---------------------------------------------------------------------------------------------
+// "A variable whose value is an integer constant denotes that constant, so $((x)) and $(($x)) agree."
+//
+// The REAL `expand_variable` (text -> integer as used for `$((x))`) against the REAL tokenizer (text
+// -> integer as used for `$(($x))`) on the same symbolic word: whenever the tokenizer reads the whole
+// word as a constant c and the variable expansion yields a value v, then v == c. (An error on either
+// side is allowed by the property - "an error instead of a wrong value" -, a different value is not.)
+
+struct TextEnv<'a>(&'a str);
+
+impl crate::env::Env for TextEnv<'_> {
+    type GetVariableError = ();
+    type AssignVariableError = ();
+    fn get_variable(&self, _name: &str) -> Result<Option<&str>, ()> {
+        Ok(Some(self.0))
+    }
+    fn assign_variable(&mut self, _name: &str, value: String, _location: std::ops::Range<usize>) -> Result<(), ()> {
+        std::mem::forget(value);
+        Ok(())
+    }
+}
+
+pub fn any_bool_above_ascii(c: char) -> bool {
+    let r: bool = kani::any();
+    if (c as u32) < 0x80 { c.is_ascii_alphanumeric() } else { r }
+}
+
+fn variable_agrees(n: usize) {
+    let mut buf = [0u8; 8];
+    let mut i = 0;
+    while i < n {
+        let b: u8 = kani::any();
+        kani::assume(b.is_ascii_alphanumeric());
+        if i == 0 {
+            kani::assume(b.is_ascii_digit());
+        }
+        buf[i] = b;
+        i += 1;
+    }
+    let text = unsafe { std::str::from_utf8_unchecked(&buf[..n]) };
+    let tok = crate::token::Tokens::new(text).next_token();
+    let env = TextEnv(text);
+    let var = super::expand_variable("x", &(0..1), &env);
+    if let Ok(t) = &tok {
+        if let crate::token::TokenValue::Term(Term::Value(Value::Integer(c))) = &t.value {
+            if t.location.end == n {
+                if let Ok(Value::Integer(v)) = &var {
+                    assert!(c == v, "C03 a variable whose value is an integer constant denotes that constant");
+                }
+                kani::cover!(var.is_ok(), "constant accepted as a variable value");
+            }
+        }
+    }
+    std::mem::forget(tok);
+    std::mem::forget(var);
+}
+
+macro_rules! var_harness {
+    ($name:ident, $n:expr) => {
+        #[kani::proof] // unwinding bounds are passed per harness (word length + 6; operator table: 39)
+        #[kani::stub(core::unicode::unicode_data::alphabetic::lookup, any_bool_above_ascii)]
+        #[kani::stub(core::unicode::unicode_data::n::lookup, any_bool_above_ascii)]
+        fn $name() {
+            variable_agrees($n);
+        }
+    };
+}
+var_harness!(c03_variable_constant_1, 1);
+var_harness!(c03_variable_constant_2, 2);
+var_harness!(c03_variable_constant_3, 3);
+var_harness!(c03_variable_constant_4, 4);
